@@ -161,6 +161,16 @@ func (s *ManagedServer) dequeueSave(ctx context.Context) {
 		select {
 		case <-s.saveQueue:
 		case <-ctx.Done():
+			// Do not drop a save job that was queued before the shutdown began.
+			select {
+			case <-s.saveQueue:
+				s.mu.RLock()
+				if err := s.saveToFile(); err != nil {
+					s.logger.Error("Failed to save credentials", zap.Error(err))
+				}
+				s.mu.RUnlock()
+			default:
+			}
 			return
 		}
 
